@@ -6,6 +6,7 @@ pub mod c02;
 pub mod c04;
 pub mod c05;
 pub mod c06;
+pub mod c07;
 pub mod c09;
 pub mod c10;
 pub mod c11;
@@ -24,6 +25,8 @@ pub static PROPS: &[Prop] = &[
 	Prop { id: "C04", run: c04::run, replay: c04::replay },
 	Prop { id: "C05", run: c05::run, replay: c05::replay },
 	Prop { id: "C06", run: c06::run, replay: c06::replay },
+	Prop { id: "C07", run: c07::run_c07, replay: c07::replay_c07 },
+	Prop { id: "C08", run: c07::run_c08, replay: c07::replay_c08 },
 	Prop { id: "C09", run: c09::run, replay: c09::replay },
 	Prop { id: "C10", run: c10::run, replay: c10::replay },
 	Prop { id: "C11", run: c11::run, replay: c11::replay },
